@@ -106,3 +106,4 @@ CFG['rule'] = CFG['rule'] + ' ' + 'Additions: every sixth history uses a pool of
 CFG['rule'] = CFG['rule'] + ' ' + 'Graph histories with a trainable quantiser (learned binary, product; thresholds 0..9) start with a scripted prefix so that the training happens inside the history: a few points below the threshold, a batch that crosses it, removal of the vector field of one early point, delete of another; later update batches remove the vector field of a random stored point one time in three. Every step carries one query whose pre-filter selects every id of the pool (live points without the vector field, deleted points and re-used node ids must not come back through it).'
 
 CFG['rule'] = CFG['rule'] + ' ' + 'Delete batches of the graph profile remove, one time in three, everything but one or two random survivors in one batch.'
+CFG['rule'] = CFG['rule'] + ' ' + 'One history in ten has a hamming / jaccard graph index that also carries a binary quantiser block with a threshold and a metric of its own (not used for these metrics), with fractional vector components.'
